@@ -320,6 +320,26 @@ def install_spec_builtins(ip):
         return c
     B["clone_class"] = Builtin("clone_class", _clone_class)
 
+    def _same_keys(ip, a, k):
+        x, y = a
+        if not (getattr(x, "symbolic", False) and getattr(y, "symbolic", False)):
+            raise Unsupported("same_keys needs two symbolic collections")
+        return sym_bool(ip, x.dom == y.dom)
+    B["same_keys"] = Builtin("same_keys", _same_keys)
+
+    def _keys_snapshot(ip, a, k):
+        """an immutable symbolic set holding the current key set of a symbolic dict/set (for old(...) comparisons)"""
+        x = a[0]
+        return PSet(dom=x.dom, kty=x.kty, size=x.size)
+    B["keys_snapshot"] = Builtin("keys_snapshot", _keys_snapshot)
+
+    def _path_state(ip, a, k):
+        st = ip.path.__dict__.setdefault("user_state", {})
+        if a[0] not in st:
+            st[a[0]] = PList([])
+        return st[a[0]]
+    B["path_state"] = Builtin("path_state", _path_state)
+
     B["resolve_class"] = Builtin("resolve_class", lambda ip, a, k: ip.resolve_class(a[0]))
     B["resolve_module"] = Builtin("resolve_module", lambda ip, a, k: ip.src.load_path(a[0]))
 
@@ -332,5 +352,7 @@ def install_spec_builtins(ip):
             return PDict(dict(ev.kwargs))
         if name == "name":
             return ev.name
+        if name == "named":
+            return PDict(dict(getattr(ev, "named", {})))
         raise Unsupported("event attribute " + name)
     ip.attr_handlers[Event] = ev_attr
